@@ -962,6 +962,8 @@ val bwd_valid : binstr list -> z -> arr -> bool
 
 val bc_wf : z -> bool -> bprog -> bool
 
+val live_regs_ok : z -> bprog -> bool
+
 val bc_wf_why : z -> bool -> bprog -> z
 
 type rop =
